@@ -137,32 +137,86 @@ def pool():
     return _pool
 
 
-_iso_pool = None
+class WorkerDied(RuntimeError):
+    pass
 
 
-def iso_pool():
+def iso_map(fn, tasks):
     """one fresh forked process per task: whatever the code under test leaves behind in a worker (class attributes, module
-    globals, caches) cannot reach the next task, so a violation is a function of its task alone and --replay can re-run it"""
-    global _iso_pool
-    if _iso_pool is None:
-        n = int(os.environ.get('VERIF_WORKERS', '0')) or min(16, os.cpu_count() or 1)
-        _iso_pool = mp.get_context('fork').Pool(n, maxtasksperchild=1)
-    return _iso_pool
+    globals, caches) cannot reach the next task, so a violation is a function of its task alone and --replay can re-run it.
+    Forked from the main thread with no other pool alive; a worker that dies without a result is an error, never a hang."""
+    import pickle
+    import select
+    import traceback
+    close_pool()
+    n = int(os.environ.get('VERIF_WORKERS', '0')) or min(16, os.cpu_count() or 1)
+    results = [None] * len(tasks)
+    pending = list(enumerate(tasks))[::-1]
+    running = {}
+    try:
+        while pending or running:
+            while pending and len(running) < n:
+                idx, t = pending.pop()
+                r, w = os.pipe()
+                sys.stdout.flush()
+                sys.stderr.flush()
+                pid = os.fork()
+                if pid == 0:
+                    code = 0
+                    try:
+                        os.close(r)
+                        for fd in running:
+                            os.close(fd)
+                        try:
+                            data = pickle.dumps(('ok', fn(t)), 2)
+                        except BaseException:     # noqa
+                            data = pickle.dumps(('err', traceback.format_exc()), 2)
+                        with os.fdopen(w, 'wb') as f:
+                            f.write(data)
+                    except BaseException:     # noqa
+                        code = 1
+                    os._exit(code)
+                os.close(w)
+                running[r] = (idx, pid, [])
+            ready, _, _ = select.select(list(running), [], [], 10.0)
+            for fd in ready:
+                piece = os.read(fd, 1 << 20)
+                if piece:
+                    running[fd][2].append(piece)
+                    continue
+                idx, pid, buf = running.pop(fd)
+                os.close(fd)
+                _, status = os.waitpid(pid, 0)
+                data = b''.join(buf)
+                if not data:
+                    raise WorkerDied('the worker of task %d ended without a result (wait status %d)' % (idx, status))
+                st, val = pickle.loads(data)
+                if st == 'err':
+                    raise RuntimeError('task %d raised in its worker:\n%s' % (idx, val))
+                results[idx] = val
+    finally:
+        for fd, (idx, pid, buf) in list(running.items()):
+            try:
+                os.kill(pid, 9)
+                os.waitpid(pid, 0)
+                os.close(fd)
+            except OSError:
+                pass
+    return results
 
 
 def close_pool():
-    global _pool, _iso_pool
-    for p in (_pool, _iso_pool):
-        if p is not None:
-            p.close()
-            p.join()
-    _pool = _iso_pool = None
+    global _pool
+    if _pool is not None:
+        _pool.close()
+        _pool.join()
+    _pool = None
 
 
 def pmap(fn, tasks, chunk=None):
     if chunk == 1 and tasks:
         # case-pool tasks (hundreds of cases each): isolated from one another
-        return iso_pool().map(fn, tasks, 1)
+        return iso_map(fn, tasks)
     if len(tasks) < 8 or os.environ.get('VERIF_WORKERS') == '1':
         return [fn(t) for t in tasks]
     p = pool()
